@@ -196,8 +196,9 @@ def agg(run, p):
             g = p.funcs[qn]
             if g.cls is None or g.cls.name != 'SQLDatabaseHandler':
                 continue
+            doc = {id(st.value) for st in ast.walk(g.node) if isinstance(st, ast.Expr) and isinstance(st.value, ast.Constant)}
             for n in p.own_nodes(g):
-                if isinstance(n, ast.Constant) and isinstance(n.value, str):
+                if isinstance(n, ast.Constant) and isinstance(n.value, str) and id(n) not in doc:
                     for m in AGG_RE.findall(n.value):
                         toks.setdefault(m, []).append((g, n))
         # constants handed over as arguments by the entry itself count as its own
